@@ -465,6 +465,19 @@ def miscOp (op : String) (args : List String) : Option String :=
   let A2 := affIO fq2IO
   match op, args with
   | "pairing", [p, q] => do let p ← A1.parse p; let q ← A2.parse q; pure (showFq12O (pairing p q))
+  | "pairjac", [p, q] => do
+      let p ← (jacIO fqIO).parse p; let q ← (jacIO fq2IO).parse q
+      match p.toAffine, q.toAffine with
+      | some p, some q => pure (showFq12O (pairing p q))
+      | _, _ => pure "PANIC"
+  | "pairjacprep", [p, q] => do
+      let p ← (jacIO fqIO).parse p; let q ← (jacIO fq2IO).parse q
+      match p.toAffine, q.toAffine with
+      | some p, some q =>
+        match millerLoop [(p, G2Prepared.fromAffine q)] with
+        | some m => pure (showOpt fq12IO.shw (finalExponentiation m))
+        | none => pure "PANIC"
+      | _, _ => pure "PANIC"
   | "pairwith1", [p, q] => do let p ← A1.parse p; let q ← A2.parse q; pure (showFq12O (pairing p q))
   | "pairwith2", [p, q] => do let p ← A1.parse p; let q ← A2.parse q; pure (showFq12O (pairing p q))
   | "consts", ["fq"] => pure (toHex Gen.q ++ " " ++ toString Gen.fq_MODULUS_BITS ++ " " ++ toString (Gen.fq_MODULUS_BITS - 1) ++ " " ++
